@@ -1,10 +1,17 @@
 import Pyc.Model.Codec
 import Pyc.Proofs.Cbor
 
-/-! Generic round trip of the table-driven codec: for every schema `S` satisfying the structural side conditions
-`WFS S`, and every value `v` typed by `HasType S t v` (the table-driven fragment: integers in the 64-bit ranges,
-byte strings, text, `None`, lists, ordered unions, constrained byte classes, array / coded / map classes restored
-by the generic code), `fromPrim S fuel t (toPrim S v) = ok v` for all sufficiently large fuel. -/
+/-! Generic round trip of the table-driven codec: for every schema `S` and every value `v` typed by `HasType S t v`
+(the table-driven fragment: integers in the 64-bit ranges, byte strings, text, `None`, lists, ordered sets, ordered
+unions, constrained byte classes, array / coded / map classes restored by the generic code),
+`fromPrim S fuel t (toPrim S v) = ok v` for all sufficiently large fuel.
+
+The side condition of an ordered union — every alternative *before* the one that types the value answers
+`DeserializeException` on the value's image — is a premise of the typing rule `HasType.union` itself (per value and
+per union occurrence), so the theorem has no global hypothesis.  It is discharged by theorem for unions of coded
+classes (`unionOK_coded`) and by evaluation for any concrete value (`typedB`, via fuel monotonicity, `Proofs/Typed.lean`).
+(An earlier version carried it as a global hypothesis `WFS S` quantified over *all* unions; that hypothesis was
+unsatisfiable — `.any` rejects nothing — which made the theorem vacuous.) -/
 
 namespace Pyc.Codec
 open Pyc Pyc.Cbor Pyc.Schema
@@ -51,15 +58,17 @@ theorem Generic.mem {cd : ClassDef} (hg : Generic cd) :
 def KeyOk (k : Key) : Prop := ∃ n : Nat, k = .int n ∧ n < 2^64
 
 /-- shape of a class the generic theorem covers (decidable per class, see `shapeOK`):
-array classes — every dataclass field is a constructor field, none optional, no hooks;
-coded classes — the code fits a CBOR head, constructor fields not optional, no hooks;
+array classes — every dataclass field is a constructor field, none optional;
+coded classes — the code fits a CBOR head, constructor fields not optional;
 map classes — every field is a constructor field keyed by a distinct small integer, an optional field defaults
-to `None`, no hooks -/
+to `None`.
+A field restored by an `object_hook` (hand-written code) is allowed: its value is carried as an opaque primitive
+(`HasFields.hook`). -/
 def ShapeOK (cd : ClassDef) : Prop :=
   match cd.kind with
-  | .array => ∀ f ∈ cd.fields, f.init = true ∧ f.optional = false ∧ f.hook = false
-  | .coded k => k < 2^64 ∧ ∀ f ∈ wireFields cd, f.optional = false ∧ f.hook = false
-  | .map => (∀ f ∈ cd.fields, f.init = true ∧ f.hook = false ∧ KeyOk f.key ∧ (f.optional = true → dfltVal f = some .none)) ∧
+  | .array => ∀ f ∈ cd.fields, f.init = true ∧ f.optional = false
+  | .coded k => k < 2^64 ∧ ∀ f ∈ wireFields cd, f.optional = false
+  | .map => (∀ f ∈ cd.fields, f.init = true ∧ KeyOk f.key ∧ (f.optional = true → dfltVal f = some .none)) ∧
       (cd.fields.map (·.key)).Nodup
   | _ => False
 
@@ -78,7 +87,10 @@ inductive HasType (S : List ClassDef) : Ty → Val → Prop
       HasType S (.cls n) (.enum v)
   | oset {t ne tagged xs} : HasTypeList S t xs → HasType S (.oset t ne) (.oset tagged xs)
   | list {t xs} : HasTypeList S t xs → HasType S (.list t) (.list xs)
-  | union {pre t post v} : HasType S t v → HasType S (.union (pre ++ t :: post)) v
+  | union {pre t post v} : HasType S t v →
+      -- ordered dispatch reaches `t`: every earlier alternative raises `DeserializeException` on the image of `v`
+      (∀ t' ∈ pre, Ev (fun fuel => fromPrim S fuel t' (toPrim S v) = .deser)) →
+      HasType S (.union (pre ++ t :: post)) v
   | cb {n cd mn mx b} : lookup S n = some cd → Generic cd → cd.kind = .cbytes mn mx → mn ≤ b.length → b.length ≤ mx →
       HasType S (.cls n) (.cb b)
   | obj {n cd fs} : lookup S n = some cd → Generic cd → ShapeOK cd →
@@ -88,14 +100,12 @@ inductive HasTypeList (S : List ClassDef) : Ty → List Val → Prop
   | cons {t x xs} : HasType S t x → HasTypeList S t xs → HasTypeList S t (x :: xs)
 inductive HasFields (S : List ClassDef) : List FieldDef → List Val → Prop
   | nil : HasFields S [] []
-  | cons {f fs v vs} : HasType S f.ty v → HasFields S fs vs → HasFields S (f :: fs) (v :: vs)
+  | cons {f fs v vs} : f.hook = false → HasType S f.ty v → HasFields S fs vs → HasFields S (f :: fs) (v :: vs)
+  -- an optional field holding `None` is not written (map classes), whatever its type hint
+  | skip {f fs vs} : f.optional = true → HasFields S fs vs → HasFields S (f :: fs) (.none :: vs)
+  -- a field restored by its `object_hook` (hand-written code) is carried as its primitive
+  | hook {f fs i vs} : f.hook = true → HasFields S fs vs → HasFields S (f :: fs) (.opaque i :: vs)
 end
-
-/-- the side condition on ordered unions: an earlier alternative answers `DeserializeException` on the image of
-a later one (discharged per union by the kind analysis / by the differential run) -/
-structure WFS (S : List ClassDef) : Prop where
-  unionOK : ∀ (pre : List Ty) (t : Ty) (post : List Ty) (v : Val), HasType S t v →
-    ∀ t' ∈ pre, Ev (fun fuel => fromPrim S fuel t' (toPrim S v) = .deser)
 
 variable {S : List ClassDef}
 
@@ -109,10 +119,11 @@ theorem arrFields_noopt (fs : List FieldDef) (vs : List Val) (h : ∀ f ∈ fs, 
   induction fs generalizing vs with
   | nil => cases hl; simp [arrFields, toPrimList]
   | cons f fs ih =>
+    have hf : f.optional = false := h f (by simp)
     cases hl with
-    | cons hv hr =>
-      have hf : f.optional = false := h f (by simp)
-      simp [arrFields, toPrimList, hf, ih _ (fun g hg => h g (by simp [hg])) hr]
+    | cons _ hv hr => simp [arrFields, toPrimList, hf, ih _ (fun g hg => h g (by simp [hg])) hr]
+    | skip ho hr => rw [hf] at ho; exact absurd ho (by decide)
+    | hook _ hr => simp [arrFields, toPrimList, hf, ih _ (fun g hg => h g (by simp [hg])) hr]
 
 /-- is the field skipped on the wire? (`optional` and holding `None`) -/
 def skip (f : FieldDef) (v : Val) : Bool := match f.optional, v with | true, .none => true | _, _ => false
@@ -255,12 +266,10 @@ theorem mapFields_keys_known (fs : List FieldDef) (vs : List Val) :
   exact ⟨g, hg, by simp [e]⟩
 
 
-theorem rtUnion (hS : WFS S) (pre : List Ty) (t : Ty) (post : List Ty) (v : Val) (ht : HasType S t v)
+theorem rtUnion (pre : List Ty) (t : Ty) (post : List Ty) (v : Val)
+    (hall : ∀ t'' ∈ pre, Ev (fun fuel => fromPrim S fuel t'' (toPrim S v) = .deser))
     (ih : Ev (fun fuel => fromPrim S fuel t (toPrim S v) = .ok v)) :
     Ev (fun fuel => fromUnion S fuel (pre ++ t :: post) (toPrim S v) = .ok v) := by
-  have hall : ∀ t'' ∈ pre, Ev (fun fuel => fromPrim S fuel t'' (toPrim S v) = .deser) :=
-    fun t'' h'' => hS.unionOK pre t post v ht t'' h''
-  clear hS
   induction pre with
   | nil => exact ih.succ (fun n hn => by simp [fromUnion, hn])
   | cons a as iha =>
@@ -269,16 +278,16 @@ theorem rtUnion (hS : WFS S) (pre : List Ty) (t : Ty) (post : List Ty) (v : Val)
     exact (ha.and hr).succ (fun n hn => by simp [fromUnion, hn.1, hn.2])
 
 /-- **generic round trip**: decoding the encoding of a typed value with its type returns the value -/
-theorem rt_all (hS : WFS S) {t : Ty} {v : Val} (h : HasType S t v) :
+theorem rt_all {t : Ty} {v : Val} (h : HasType S t v) :
     Ev (fun fuel => fromPrim S fuel t (toPrim S v) = .ok v) := by
   refine HasType.rec (S := S)
     (motive_1 := fun t v _ => Ev (fun fuel => fromPrim S fuel t (toPrim S v) = .ok v))
     (motive_2 := fun t xs _ => Ev (fun fuel => fromPrimList S fuel t (toPrimList S xs) = .ok xs))
-    (motive_3 := fun fs vs _ => (∀ f ∈ fs, f.hook = false) →
-        Ev (fun fuel => fromArr S fuel fs (toPrimList S vs) = .ok vs) ∧
+    (motive_3 := fun fs vs _ =>
+        ((∀ f ∈ fs, f.optional = false) → Ev (fun fuel => fromArr S fuel fs (toPrimList S vs) = .ok vs)) ∧
         ((∀ f ∈ fs, f.optional = true → dfltVal f = some .none) → ∀ kvs, EntriesOK S kvs fs vs →
           Ev (fun fuel => fromMap S fuel fs kvs = .ok vs)))
-    ?int ?bytes ?text ?none ?bool ?frac ?any ?custom ?enum ?oset ?list ?union ?cb ?obj ?lnil ?lcons ?fnil ?fcons h
+    ?int ?bytes ?text ?none ?bool ?frac ?any ?custom ?enum ?oset ?list ?union ?cb ?obj ?lnil ?lcons ?fnil ?fcons ?fskip ?fhook h
   case int =>
     intro i hi
     exact Ev.pos (fun n => by simp [toPrim, fromPrim, itemInt_ofInt i hi])
@@ -319,8 +328,8 @@ theorem rt_all (hS : WFS S) {t : Ty} {v : Val} (h : HasType S t v) :
     intro t xs _ ih
     exact ih.succ (fun n hn => by simp [toPrim, fromPrim, listElems?, hn])
   case union =>
-    intro pre t post v ht ih
-    have hu := rtUnion hS pre t post v ht ih
+    intro pre t post v _ hall ih
+    have hu := rtUnion pre t post v hall ih
     exact hu.succ (fun n hn => by simp [fromPrim, hn])
   case cb =>
     intro n cd mn mx b hl hg hk h1 h2
@@ -334,9 +343,9 @@ theorem rt_all (hS : WFS S) {t : Ty} {v : Val} (h : HasType S t v) :
       have hw := hshape
       have hfe : wireFields cd = cd.fields := wireFields_eq_of_init cd (fun f hf => (hw f hf).1)
       rw [hfe] at hboth hf
-      have hno : ∀ f ∈ cd.fields, f.optional = false := fun f hf => (hw f hf).2.1
+      have hno : ∀ f ∈ cd.fields, f.optional = false := fun f hf => (hw f hf).2
       have he := arrFields_noopt (S := S) cd.fields fs hno hf
-      have harr := (hboth (fun f hf => (hw f hf).2.2)).1
+      have harr := hboth.1 hno
       exact harr.succ (fun m hm => by
         simp [toPrim, fromPrim, hl, hg.mem.1, hg.mem.2, hk, he, hfe, listElems?, hm])
     | map =>
@@ -344,9 +353,9 @@ theorem rt_all (hS : WFS S) {t : Ty} {v : Val} (h : HasType S t v) :
       have hw := hshape
       have hfe : wireFields cd = cd.fields := wireFields_eq_of_init cd (fun f hf => (hw.1 f hf).1)
       rw [hfe] at hboth hf
-      have hent := entriesOK_mapFields (S := S) cd.fields fs [] (fun f hf => (hw.1 f hf).2.2.1) hw.2
+      have hent := entriesOK_mapFields (S := S) cd.fields fs [] (fun f hf => (hw.1 f hf).2.1) hw.2
         (by intro f _ k' hk'; simp [keysOf] at hk')
-      have hm := (hboth (fun f hf => (hw.1 f hf).2.1)).2 (fun f hf => (hw.1 f hf).2.2.2) _ hent
+      have hm := hboth.2 (fun f hf => (hw.1 f hf).2.2) _ hent
       have hkeys := mapFields_keys_known (S := S) cd.fields fs
       exact hm.succ (fun m hm' => by
         simp only [List.nil_append] at hm'
@@ -354,9 +363,9 @@ theorem rt_all (hS : WFS S) {t : Ty} {v : Val} (h : HasType S t v) :
     | coded k =>
       rw [hk] at hshape
       have hw := hshape
-      have hno : ∀ f ∈ wireFields cd, f.optional = false := fun f hf => (hw.2 f hf).1
+      have hno : ∀ f ∈ wireFields cd, f.optional = false := fun f hf => hw.2 f hf
       have he := arrFields_noopt (S := S) (wireFields cd) fs hno hf
-      have harr := (hboth (fun f hf => (hw.2 f hf).2)).1
+      have harr := hboth.1 hno
       exact harr.succ (fun m hm => by
         simp [toPrim, fromPrim, hl, hg.mem.1, hg.mem.2, hk, he, hm])
     | dict a b => rw [hk] at hshape; exact absurd hshape id
@@ -369,16 +378,14 @@ theorem rt_all (hS : WFS S) {t : Ty} {v : Val} (h : HasType S t v) :
     intro t x xs _ _ h1 h2
     exact (h1.and h2).succ (fun n hn => by simp [toPrimList, fromPrimList, hn.1, hn.2])
   case fnil =>
-    intro _
-    exact ⟨Ev.pos (fun n => by simp [toPrimList, fromArr]), fun _ kvs _ => Ev.pos (fun n => by simp [fromMap])⟩
+    exact ⟨fun _ => Ev.pos (fun n => by simp [fromArr]), fun _ kvs _ => Ev.pos (fun n => by simp [fromMap])⟩
   case fcons =>
-    intro f fs v vs _ _ h1 h2 hhook
-    have hf0 : f.hook = false := hhook f (by simp)
-    have h2' := h2 (fun g hg => hhook g (by simp [hg]))
-    refine ⟨(h1.and h2'.1).succ (fun n hn => by simp [toPrimList, fromArr, hf0, hn.1, hn.2]), ?_⟩
+    intro f fs v vs hf0 _ _ h1 h2
+    refine ⟨fun hno => ((h1.and (h2.1 (fun g hg => hno g (by simp [hg])))).succ
+      (fun n hn => by simp [toPrimList, fromArr, hf0, hn.1, hn.2])), ?_⟩
     intro hd kvs hent
     unfold EntriesOK at hent
-    have h3 := h2'.2 (fun g hg => hd g (by simp [hg])) kvs hent.2
+    have h3 := h2.2 (fun g hg => hd g (by simp [hg])) kvs hent.2
     by_cases hs : skip f v = true
     · have hv : v = .none ∧ f.optional = true := by
         unfold skip at hs; split at hs <;> simp_all
@@ -387,6 +394,27 @@ theorem rt_all (hS : WFS S) {t : Ty} {v : Val} (h : HasType S t v) :
       exact h3.succ (fun n hn => by simp [fromMap, hl, hdf, hn, hv.1])
     · have hl : lookupItemKey (keyItem f.key) kvs = some (toPrim S v) := by rw [hent.1]; simp [hs]
       exact (h1.and h3).succ (fun n hn => by simp [fromMap, hl, hf0, hn.1, hn.2])
+  case fskip =>
+    intro f fs vs ho _ h2
+    refine ⟨fun hno => ?_, ?_⟩
+    · have := hno f (by simp); rw [ho] at this; exact absurd this (by decide)
+    intro hd kvs hent
+    unfold EntriesOK at hent
+    have h3 := h2.2 (fun g hg => hd g (by simp [hg])) kvs hent.2
+    have hs : skip f .none = true := by simp [skip, ho]
+    have hl : lookupItemKey (keyItem f.key) kvs = Option.none := by rw [hent.1, hs]; simp
+    have hdf : dfltVal f = some .none := hd f (by simp) ho
+    exact h3.succ (fun n hn => by simp [fromMap, hl, hdf, hn])
+  case fhook =>
+    intro f fs i vs hh _ h2
+    refine ⟨fun hno => ((h2.1 (fun g hg => hno g (by simp [hg]))).succ
+      (fun n hn => by simp [toPrimList, toPrim, fromArr, hh, hn])), ?_⟩
+    intro hd kvs hent
+    unfold EntriesOK at hent
+    have h3 := h2.2 (fun g hg => hd g (by simp [hg])) kvs hent.2
+    have hs : skip f (.opaque i) = false := by cases ho : f.optional <;> simp [skip, ho]
+    have hl : lookupItemKey (keyItem f.key) kvs = some i := by rw [hent.1]; simp [hs, toPrim]
+    exact h3.succ (fun n hn => by simp [fromMap, hl, hh, hn])
 
 end Pyc.Codec
 
@@ -445,9 +473,9 @@ theorem keysNodupB_sound (ks : List Key) (h : keysNodupB ks = true) : ks.Nodup :
 
 def shapeOK (cd : ClassDef) : Bool :=
   match cd.kind with
-  | .array => cd.fields.all (fun f => f.init && !f.optional && !f.hook)
-  | .coded k => decide (k < 2^64) && (wireFields cd).all (fun f => !f.optional && !f.hook)
-  | .map => cd.fields.all (fun f => f.init && !f.hook && keyOkB f.key && (!f.optional || dfltNoneB f)) &&
+  | .array => cd.fields.all (fun f => f.init && !f.optional)
+  | .coded k => decide (k < 2^64) && (wireFields cd).all (fun f => !f.optional)
+  | .map => cd.fields.all (fun f => f.init && keyOkB f.key && (!f.optional || dfltNoneB f)) &&
       keysNodupB (cd.fields.map (·.key))
   | _ => false
 
@@ -460,7 +488,7 @@ theorem shapeOK_sound (cd : ClassDef) (h : shapeOK cd = true) : ShapeOK cd := by
     intro f hf
     have := h f hf
     simp only [Bool.and_eq_true, Bool.not_eq_true'] at this
-    exact ⟨this.1.1, this.1.2, this.2⟩
+    exact ⟨this.1, this.2⟩
   | coded k =>
     rw [hk] at h; simp only at h ⊢
     simp only [Bool.and_eq_true, decide_eq_true_eq, List.all_eq_true, Bool.not_eq_true'] at h
@@ -471,7 +499,7 @@ theorem shapeOK_sound (cd : ClassDef) (h : shapeOK cd = true) : ShapeOK cd := by
     refine ⟨?_, keysNodupB_sound _ h.2⟩
     intro f hf
     have := h.1 f hf
-    refine ⟨this.1.1.1, this.1.1.2, keyOkB_sound _ this.1.2, ?_⟩
+    refine ⟨this.1.1, keyOkB_sound _ this.1.2, ?_⟩
     intro ho
     rcases this.2 with h1 | h1
     · rw [ho] at h1; exact absurd h1 (by decide)
